@@ -60,6 +60,16 @@ PARSE_PROBES = [
     'a $b$ {c} \\ab[o]{m} ~', '\\begin{e}a $$b$$\\end{e} x', '\\(a\\) @b@ \\[c\\] <d>', 'a%c\n\nb \\x{y}',
     '\\begin{em}a_b $x$\\end{em} \\vb{p{q}r} \\vb|%|', '\\dl<a>(b)+ \\any[c] \\begin{eo}[o]{m}z\\end{eo}',
     '!ab[o]{m} !begin{em}x!end{em} #c\n!x<y>', '$a \\x{b$c$} d$ @@e@@',
+    # arguments whose contents depend on fields other than the one that selects their parser
+    'x + \\text{if % c} \\txt{a # b %% c} y\n z', '\\sqrt[n % t]{x} \\ab[p #q !r $s$]{m} \\mth[a_b %c\n]{d}',
+    '\\mbox{a $b$ @c@ <d> !x{e}} ~ ``', '$\\txt{p $q$ \\(r\\)} s$ \\[t\\]',
+]
+
+PARSE_SNIPPETS = [
+    'a ', '$b$', '$$c$$', '\\(d\\)', '\\[e\\]', '@f@', '{g}', '[h]', '<i>', '(j)', '% k\n', '# l\n', '%% m\n',
+    '\\ab[o]{m}', '!ab[o]{m}', '\\x{y}', '\\text{t % u}', '\\txt{v # w}', '\\mbox{$x$ @y@}', '\\sqrt[n %% o]{p}',
+    '\\vb{q{r}s}', '\\dl<a>(b)+', '\\any[c]', '\\begin{em}x_y\\end{em}', '\\begin{e}z\\end{e}', '!begin{e}z!end{e}',
+    '\\begin{eo}[o]{m}w\\end{eo}', '\n\n', '~', '``', '&', '\\mth[a^b]{c}', 'x', '$', '}', '\\',
 ]
 
 ASSUMPTIONS = [
@@ -131,7 +141,9 @@ def generate(rng, tier, run):
                 ch = {'@repeat': rng.sample(sorted(DOM), rng.randint(1, 3))}
             ops.append(['derive', i, ch])
     probes = [''.join(rng.choice(ALPHABET) for _ in range(rng.randint(2, 8))) for _ in range(6)]
-    return {'batch': batch, 'ops': ops, 'probes': probes}
+    # seeded whole-parse probes: snippets whose reading depends on many different fields
+    parse_probes = [''.join(rng.choice(PARSE_SNIPPETS) for _ in range(rng.randint(2, 5))) for _ in range(2)]
+    return {'batch': batch, 'ops': ops, 'probes': probes, 'parse_probes': parse_probes}
 
 
 # --------------------------------------------------------------------------
@@ -146,11 +158,16 @@ def contexts():
     from pylatexenc import macrospec
     from pylatexenc.latexwalker import get_default_latex_context_db
     small = macrospec.LatexContextDb()
-    from pylatexenc.latexnodes import ParsingStateDeltaEnterMathMode
+    from pylatexenc.latexnodes import (ParsingStateDeltaEnterMathMode, ParsingStateDeltaLeaveMathMode,
+                                       LatexArgumentSpec)
     small.add_context_category('small', macros=[
         macrospec.MacroSpec('ab', '[{'), macrospec.MacroSpec('x', '{'),
         macrospec.MacroSpec('vb', ['v']), macrospec.MacroSpec('dl', ['d<>', 'r()', 't+']),
         macrospec.MacroSpec('any', ['AnyDelimited']),
+        macrospec.MacroSpec('txt', arguments_spec_list=[
+            LatexArgumentSpec('{', parsing_state_delta=ParsingStateDeltaLeaveMathMode())]),
+        macrospec.MacroSpec('mth', arguments_spec_list=[
+            LatexArgumentSpec('[', parsing_state_delta=ParsingStateDeltaEnterMathMode()), '{']),
     ], environments=[
         macrospec.EnvironmentSpec('e', ''),
         macrospec.EnvironmentSpec('em', '', body_parsing_state_delta=ParsingStateDeltaEnterMathMode()),
@@ -284,6 +301,7 @@ def execute(program):
     nontrivial = False
     violation = None
     base_strings = FIXED_PROBES + list(program['probes'])
+    parse_strings = PARSE_PROBES + list(program.get('parse_probes', []))
 
     def compare_with_fresh(ps, opi, idx, strings):
         fields = ps.get_fields()
@@ -292,8 +310,8 @@ def execute(program):
         except Exception as e:
             raise Violation('fresh-constructor-fails', op_index=opi, state=idx,
                             observed=repr(e), expected='constructor accepts get_fields() of a derived state')
-        b_d = behaviour(ps, strings, PARSE_PROBES, stats)
-        b_f = behaviour(fresh, strings, PARSE_PROBES, stats)
+        b_d = behaviour(ps, strings, parse_strings, stats)
+        b_f = behaviour(fresh, strings, parse_strings, stats)
         for s in strings:
             if b_d['tokens'][s] != b_f['tokens'][s]:
                 which = ['strict-tokens', 'tolerant-tokens', 'peek-at-every-position']
@@ -318,11 +336,21 @@ def execute(program):
                 raise Violation('sub_context-never-alters-states', op_index=opi, state=j, field=k,
                                 observed=now[k], expected=before_fields[j][k])
 
-    def recheck_behaviour(opi, j):
+    def recheck_behaviour(opi, j, part=None):
+        """The state still behaves as when it was created.  part = (k, n): only every n-th probe
+        string starting at k (a corrupted shared table shows on many strings at once)."""
         st = live[j]
         strings = st['strings']
-        b = behaviour(st['ps'], strings, PARSE_PROBES, stats)
-        if b != st['behaviour']:
+        pstrings = parse_strings
+        if part is not None:
+            k, n = part
+            strings = strings[k % n::n]
+            pstrings = pstrings[k % n::n]
+        b = behaviour(st['ps'], strings, pstrings, stats)
+        stored = st['behaviour']
+        same = all(b['tokens'][x] == stored['tokens'].get(x) for x in b['tokens']) and \
+            all(b['parse'][x] == stored['parse'].get(x) for x in b['parse'])
+        if not same:
             raise Violation('sub_context-never-alters-states', op_index=opi, state=j,
                             field='<behaviour>', observed='state tokenizes/parses differently than '
                             'when it was created', expected='unchanged behaviour')
@@ -384,7 +412,7 @@ def execute(program):
                     check_others_unchanged(opi, before)
                     b = compare_with_fresh(child, opi, len(live), base_strings)
                     # parent must still behave as when it was created
-                    recheck_behaviour(opi, j)
+                    recheck_behaviour(opi, j, (opi, 3))
                     step = [int('latex_group_delimiters' in effective),
                             int(any(k in effective for k in MATH_CONE[2:])),
                             int(any(k in effective for k in MATH_CONE[:2]))]
@@ -438,7 +466,7 @@ def execute(program):
                     stats.inc('fault-fired:rejected-' + op[2])
                     outcome = 'rejected'
                     check_others_unchanged(opi, before)
-                    recheck_behaviour(opi, j)
+                    recheck_behaviour(opi, j, (opi, 3))
                 else:
                     outcome = 'unspecified-accept'
             else:
@@ -448,7 +476,7 @@ def execute(program):
             trace.append([kind, outcome, core.short_digest([plain_fields(st['ps']) for st in live])])
         # final pass: every live state still behaves as when it was created
         for j in range(len(live)):
-            recheck_behaviour(len(program['ops']) - 1, j)
+            recheck_behaviour(len(program['ops']) - 1, j, (j, 2))
             stats.inc('final-behaviour-rechecks')
     except Violation as v:
         oi = v.info.get('op_index', 0)
@@ -470,6 +498,9 @@ def shrink_candidates(program):
     if program['probes']:
         for i in range(len(program['probes'])):
             yield dict(program, probes=program['probes'][:i] + program['probes'][i + 1:])
+    pp = program.get('parse_probes') or []
+    for i in range(len(pp)):
+        yield dict(program, parse_probes=pp[:i] + pp[i + 1:])
     for i, op in enumerate(ops):
         def repl(new):
             return dict(program, ops=ops[:i] + [new] + ops[i + 1:])
@@ -511,8 +542,8 @@ COMPONENTS = {
     'stub': ['token reader subclass that only counts ticks (deterministic step budget)'],
 }
 TIERS = {
-    'quick': {'runs': 4000, 'wall_cap': 300},
-    'thorough': {'runs': 60000, 'wall_cap': 3600},
+    'quick': {'runs': 3000, 'wall_cap': 300},
+    'thorough': {'runs': 45000, 'wall_cap': 3600},
 }
 EXPECTED_PROBES = ['math-lists-changed-while-in-math-mode', 'derive-without-effective-change',
                    'derive-repeats-current-values', 'chain-depth-4']
